@@ -41,7 +41,7 @@ func genC05(t *rapid.T) Scenario {
 	n := rapid.IntRange(0, 5).Draw(t, "nDisturb")
 	for i := 0; i < n; i++ {
 		x := rapid.IntRange(0, 1).Draw(t, "who")
-		op := HubOp{K: rapid.SampledFrom([]string{"disconnect", "disconnect", "cut", "cut", "refuse", "disappear", "appear"}).Draw(t, "disturb"), X: x, Y: 1 - x, WaitMs: w("disturbWait")}
+		op := HubOp{K: rapid.SampledFrom([]string{"disconnect", "disconnect", "cut", "cut", "halfcut", "refuse", "disappear", "appear"}).Draw(t, "disturb"), X: x, Y: 1 - x, WaitMs: w("disturbWait")}
 		op.Conc = rapid.IntRange(0, 3).Draw(t, "conc") == 0
 		sc.Ops = append(sc.Ops, op)
 	}
@@ -117,7 +117,41 @@ func judgeC05(sc Scenario) (key, msg string, nontrivial bool) {
 
 // ---- C10: pairing follows user intent --------------------------------------------------
 
+// focused scenarios: one pair, one story, nothing else going on
+func genC10Focused(t *rapid.T) Scenario {
+	sc := Scenario{N: 3, ZeroHigher: rapid.Bool().Draw(t, "zeroHigher"), SlowAppMs: []int{0, 0, 0}, AutoAccept: []bool{false, false, false}}
+	x := rapid.IntRange(0, 1).Draw(t, "fx")
+	y := 1 - x
+	w := func() int { return rapid.SampledFrom([]int{0, 30, 150, 500, 1100, 1700}).Draw(t, "fw") }
+	sp := func() int { return rapid.SampledFrom([]int{0, 0, 1, 2, 3}).Draw(t, "fspell") }
+	switch rapid.IntRange(0, 4).Draw(t, "focus") {
+	case 0: // x asks y, cancels while its application is slow, y approves in that moment
+		sc.SlowAppMs[x] = rapid.SampledFrom([]int{300, 600}).Draw(t, "slow")
+		sc.Ops = []HubOp{{K: "appear", X: x, Y: y}, {K: "register", X: x, Y: y, WaitMs: rapid.SampledFrom([]int{300, 800, 1500}).Draw(t, "w1")},
+			{K: "cancel", X: x, Y: y, Conc: true, WaitMs: rapid.SampledFrom([]int{10, 60, 150}).Draw(t, "w2"), Spell: sp()},
+			{K: "register", X: y, Y: x, WaitMs: 1500}}
+	case 1: // register while invisible, unregister, then the service appears
+		sc.Ops = []HubOp{{K: "register", X: x, Y: y, WaitMs: w(), Spell: sp()}, {K: "unregister", X: x, Y: y, WaitMs: w(), Spell: sp()},
+			{K: "appear", X: x, Y: y, WaitMs: w()}, {K: "register", X: y, Y: x}, {K: "appear", X: y, Y: x, WaitMs: 1500}}
+	case 2: // pairing with a peer that announces register=true, then revoked, then the peer knocks
+		sc.AutoAccept[y] = true
+		sc.Ops = []HubOp{{K: "appear", X: x, Y: y}, {K: "register", X: x, Y: y, WaitMs: w(), Spell: sp()}, {K: "unregister", X: x, Y: y, WaitMs: w(), Spell: sp()},
+			{K: "register", X: y, Y: x}, {K: "appear", X: y, Y: x, WaitMs: 1800}}
+	case 3: // unregister inside the back-off window of a redial, then register again
+		sc.Ops = []HubOp{{K: "register", X: x, Y: y}, {K: "register", X: y, Y: x}, {K: "appear", X: x, Y: y}, {K: "appear", X: y, Y: x, WaitMs: 1200},
+			{K: "cut", X: x, Y: y}, {K: "cut", X: y, Y: x, WaitMs: rapid.SampledFrom([]int{20, 200, 500}).Draw(t, "w3")},
+			{K: "unregister", X: x, Y: y, WaitMs: rapid.SampledFrom([]int{0, 100, 400}).Draw(t, "w4"), Spell: sp()}, {K: "wait", WaitMs: 1500}}
+	default: // shutdown with live connections and pending redials
+		sc.Ops = []HubOp{{K: "register", X: x, Y: y}, {K: "register", X: y, Y: x}, {K: "appear", X: x, Y: y}, {K: "appear", X: y, Y: x, WaitMs: 1200},
+			{K: "cut", X: x, Y: y, WaitMs: rapid.SampledFrom([]int{0, 100, 600}).Draw(t, "w5")}, {K: "shutdown", X: x, Y: y, WaitMs: 1800}}
+	}
+	return sc
+}
+
 func genC10(t *rapid.T) Scenario {
+	if rapid.IntRange(0, 2).Draw(t, "focused") == 0 {
+		return genC10Focused(t)
+	}
 	sc := Scenario{N: 3, ZeroHigher: rapid.Bool().Draw(t, "zeroHigher")}
 	n := rapid.IntRange(5, 18).Draw(t, "nOps")
 	for i := 0; i < n; i++ {
@@ -141,7 +175,11 @@ func genC10(t *rapid.T) Scenario {
 		// x asks y (y's user has not answered yet), x cancels, then y's user approves
 		{"register", "appear", "wait", "cancel", "peerRegister", "wait"},
 		{"appear", "register", "cancel", "wait", "peerRegister"},
+		// the cancel is still being processed (slow application callback) when y's user approves
+		{"register", "appear", "wait", "cancelConc", "peerRegister", "wait", "wait"},
 	}
+	sc.SlowAppMs = []int{rapid.SampledFrom([]int{0, 0, 400}).Draw(t, "slow0"), rapid.SampledFrom([]int{0, 0, 400}).Draw(t, "slow1"), 0}
+	sc.AutoAccept = []bool{false, false, rapid.IntRange(0, 3).Draw(t, "auto2") == 0}
 	for i, m := 0, rapid.IntRange(0, 2).Draw(t, "nStories"); i < m; i++ {
 		x := rapid.IntRange(0, 2).Draw(t, "sx")
 		y := (x + 1 + rapid.IntRange(0, 1).Draw(t, "sdy")) % 3
@@ -150,6 +188,11 @@ func genC10(t *rapid.T) Scenario {
 			sc.Ops = append(sc.Ops, HubOp{K: "register", X: y, Y: x}, HubOp{K: "appear", X: y, Y: x})
 		}
 		for _, k := range rapid.SampledFrom(stories).Draw(t, "story") {
+			if k == "cancelConc" {
+				sc.Ops = append(sc.Ops, HubOp{K: "cancel", X: x, Y: y, Conc: true, WaitMs: rapid.SampledFrom([]int{20, 100}).Draw(t, "cwait"),
+					Spell: rapid.SampledFrom([]int{0, 0, 1}).Draw(t, "cspell")})
+				continue
+			}
 			if k == "peerRegister" {
 				sc.Ops = append(sc.Ops, HubOp{K: "register", X: y, Y: x, WaitMs: rapid.SampledFrom([]int{0, 300, 1200}).Draw(t, "pwait")})
 				continue
@@ -177,7 +220,7 @@ func genC11Hub(t *rapid.T) Scenario {
 	for i := 0; i < n; i++ {
 		x := rapid.IntRange(0, 2).Draw(t, "x")
 		y := (x + 1 + rapid.IntRange(0, 1).Draw(t, "dy")) % 3
-		k := rapid.SampledFrom([]string{"cut", "cut", "disconnect", "cancel", "unregister", "register", "disappear", "appear", "wait"}).Draw(t, "op")
+		k := rapid.SampledFrom([]string{"cut", "cut", "halfcut", "halfcut", "disconnect", "cancel", "unregister", "register", "disappear", "appear", "wait"}).Draw(t, "op")
 		sc.Ops = append(sc.Ops, HubOp{K: k, X: x, Y: y, WaitMs: rapid.SampledFrom([]int{0, 0, 30, 250, 700, 1500}).Draw(t, "wait"),
 			Conc: rapid.IntRange(0, 4).Draw(t, "conc") == 0})
 	}
@@ -210,6 +253,9 @@ func judgeC10(sc Scenario) (key, msg string, nontrivial bool) {
 	type interval struct{ from, to time.Duration } // registered during [from, to)
 	end := time.Since(f.start) + time.Hour
 	for x := 0; x < sc.N; x++ {
+		if x < len(sc.AutoAccept) && sc.AutoAccept[x] {
+			continue // a hub with auto accept on trusts on its own: the plain user-intent model does not apply
+		}
 		var shutdownAt time.Duration = -1
 		for _, o := range r.Ops {
 			if !o.Skipped && o.Op.K == "shutdown" && o.Op.X == x {
